@@ -244,6 +244,11 @@ def step (_ : Unit) (ws : List String) : Unit × String :=
         optHex (encodeOpenssh? { noCipher with blockSize := bs } check
                   { alg := alg, fields := fields, comment := comment, pub := pub })
       | _, _, _, _, _, _ => "bad-op"
+    -- does export_private_key('openssh') write this comment, and could OpenSSH load it?
+    | ["osshcomment", c] => match unhex c with
+      | some c => (if commentRefused c then "refused" else "written") ++
+                  (if cstringOk c then " cstring" else " not-cstring")
+      | none => "bad-op"
     | ["osshdec", d] => match unhex d with
       | some d => match decodeOpenssh none d with
         | .ok k => "ok " ++ hex k.alg ++ " " ++ hex k.comment ++ " " ++ hex k.pub ++ " " ++
